@@ -301,6 +301,12 @@ func (ww *conversionVisitor) visitOneofNode(node *sourcewalk.OneofNode) {
 		}
 	}
 
+	if len(message.descriptor.Field) == 0 {
+		// proto does not allow a oneof without members ('oneof type {}' does
+		// not parse); the message option alone marks an empty oneof
+		message.descriptor.OneofDecl = nil
+	}
+
 	ww.parentContext.addMessage(message)
 }
 
